@@ -32,8 +32,7 @@ theorem instant_naive (z : Zone) (hs : z.Sorted) (now L u : Int) (h : getInstant
 
 /-- a time of day: the result shows that wall clock time today — and is then not before now — or tomorrow,
 and then today's instant with that wall clock time has already passed -/
-theorem instant_time (z : Zone) (hs : z.Sorted) (now t u : Int) (h : getInstant z now (.tod t) = .ok u)
-    (hne : ∀ L, sols z.init none z.trans L ≠ [] ∨ z.resolve L ≠ .unique (L - z.init)) :
+theorem instant_time (z : Zone) (hs : z.Sorted) (now t u : Int) (h : getInstant z now (.tod t) = .ok u) :
     (z.toLocal u = z.localDay now * NS_PER_DAY + t ∧ now ≤ u) ∨
     (z.toLocal u = (z.localDay now + 1) * NS_PER_DAY + t ∧
       ∃ u0, z.toLocal u0 = z.localDay now * NS_PER_DAY + t ∧ u0 < now) := by
@@ -43,17 +42,7 @@ theorem instant_time (z : Zone) (hs : z.Sorted) (now t u : Int) (h : getInstant 
     split at hv
     · next u' hu =>
       simp at hv; subst hv
-      by_cases hn : sols z.init none z.trans L = []
-      · exfalso
-        rcases hne L with h1 | h1
-        · exact h1 hn
-        · -- resolve returned `unique` from the unreachable default branch
-          apply h1
-          simp only [Zone.resolve, hn] at hu ⊢
-          split at hu
-          · simp at hu
-          · simp at hu; simp [hu]
-      · exact (z.resolve_unique hs L u' hu hn).1
+      exact (z.resolve_unique' hs L u' hu).1
     · simp at hv
     · simp at hv
   simp only [getInstant] at h
